@@ -303,9 +303,9 @@ def run_ka(ck):
                 spec_q.append("Susual %s %s %s %s %s" % (a, w1, b, w2, oc))
                 spec_i.append((i, "1"))
         elif kind == "hasint":
-            if f[1].split(":")[-1] != "bool":
-                spec_q.append("Srange %s %s %s" % (f[1], f[2], f[3]))
-                spec_i.append((i, "eq"))
+            # _Bool included (one value bit) since fix 08f8fa4
+            spec_q.append("Srange %s %s %s" % (f[1], f[2], f[3]))
+            spec_i.append((i, "eq"))
         elif kind == "compat":
             spec_q.append("S" + line)
             spec_i.append((i, "eq"))
@@ -348,7 +348,7 @@ def run_ka(ck):
                               "what": "type.c and Model/Types.lean disagree although the code's answer satisfies the Spec "
                                       "(or the input is outside the C11 domain): the model no longer describes the code",
                               "theorem": "CprocVerif.C05.%s" % {"promote": "promote_correct", "commonreal": "commonreal_partial",
-                                                               "hasint": "hasint_partial", "compat": "compat_sound",
+                                                               "hasint": "hasint_correct", "compat": "compat_sound",
                                                                "adjust": "typeadjust_correct"}.get(kind, kind)}, nofail=True)
                 break
     for (line, kind) in lines:
@@ -1144,8 +1144,8 @@ def run_kb_compat(ck):
 
 # ----------------------------------------------------------------------------- reported deviations (fixed reproducers)
 FINDINGS = [
-    ("enum-bool-range", "enum E : _Bool { A = 2 };\nint x = A;\n",
-     lambda rc, out: rc == 0, "enumerator 2 accepted for an enum with underlying type _Bool (typehasint treats _Bool as 8 bits)"),
+    # (finding id, program, predicate "still broken" on (status, stdout), what) -- none at present:
+    # enum-bool-range was repaired by 08f8fa4 and is now the regression witness corpus/C05/enum_bool_range.c
 ]
 
 
@@ -1172,6 +1172,17 @@ def run_corpus(ck):
         if not f.endswith(".c"):
             continue
         src = open(os.path.join(d, f)).read()
+        rej = re.search(r"expect-reject:\s*(.*?)\s*\*/", src)
+        if rej:
+            # a witness that must be diagnosed (a repaired defect in what the typing code accepts)
+            r = subprocess.run([cc, os.path.join(d, f)], stdout=subprocess.PIPE, stderr=subprocess.PIPE, text=True)
+            n += 1
+            ck.count(("corpus", f))
+            if r.returncode != 1 or not re.search(rej.group(1), r.stderr):
+                ck.violation({"kind": "corpus", "file": "corpus/C05/" + f, "program": src, "exit_status": r.returncode,
+                              "stderr": r.stderr[-300:], "expected_diagnostic": rej.group(1),
+                              "what": "corpus witness of a repaired defect is accepted again (or not diagnosed as expected)"})
+            continue
         m = re.search(r"expect:\s*([^*\n]*)", src)
         if not m:
             continue
@@ -1230,7 +1241,7 @@ META = {
     "category": "proof",
     "text": ("Lean 4 theorems over a model of type.c / targ.c / the typing code of expr.c / decl.c:tagspec, for all inputs: "
              "typepromote = 6.3.1.1p2 by value range for every type object and bit-field width; typecommonreal = the "
-             "common real type of 6.3.1.8; typehasint decides range membership for every 64-bit pattern (t != _Bool); inttype = first "
+             "common real type of 6.3.1.8; typehasint decides range membership for every 64-bit pattern (_Bool included); inttype = first "
              "type of the 6.4.4.1p5 list for every value < 2^64, base and suffix incl. the no-type error; every binary "
              "operator, ?:, unary + - ~, sizeof, member qualifiers, decay, typeadjust; typecompatible is reflexive, "
              "symmetric, sound and complete w.r.t. an inductive 6.2.7 relation; enum facts; target facts; tables "
